@@ -164,11 +164,9 @@ theorem G_stepLiteral {t : FState} (c : Rune) (ht : t.nesting ≤ 10) : G 31 t (
   · split
     · gleaf
     · split
+      · split <;> gleaf
       · split
         · gleaf
-        · gleaf
-      · split
-        · split <;> gleaf
         · split
           · gleaf
           · split
@@ -191,7 +189,7 @@ theorem G_stepHeredoc {s : FState} (c : Rune) (h : s.nesting ≤ 10) : G 31 s (s
         · gleaf
   · split
     · split
-      · exact G_stepLiteral (t := { s with marker := [], closing := [], heredoc := 0 }) c h
+      · gleaf
       · gleaf
     · exact G_stepLiteral c h
 
